@@ -993,6 +993,12 @@ fn run_family<S: Fam>(bufsize: usize, events: &[&str]) -> String {
         Some(v) => (Some(v), &events[1..]),
         None => (None, events),
     };
+    // `pfx<k>` next: the device prefix is PREFIX followed by k more bytes (the constructor's topic-length assert and the
+    // longest topic of a dump are probed with it; such histories are judged by their own oracle only)
+    let (prefix, events): (&'static str, _) = match events.first().and_then(|e| e.strip_prefix("pfx")).and_then(|v| v.parse::<usize>().ok()) {
+        Some(k) => (Box::leak(format!("{PREFIX}{}", "p".repeat(k.min(200))).into_boxed_str()), &events[1..]),
+        None => (PREFIX, events),
+    };
     let mut config =
         minimq::ConfigBuilder::<minimq::broker::IpBroker>::new(localhost.into(), &mut buffer);
     if let Some(n) = txmax {
@@ -1000,7 +1006,7 @@ fn run_family<S: Fam>(bufsize: usize, events: &[&str]) -> String {
     }
     let client = match Client::<S>::new(
         Stack(world.clone()),
-        PREFIX,
+        prefix,
         MockClock(time.clone(), offset.clone()),
         config,
     ) {
